@@ -759,7 +759,8 @@ result_t NumberDataType::derive(int divisor, size_t bitCount, const NumberDataTy
     return RESULT_ERR_INVALID_ARG;
   }
   ostringstream str;
-  str << m_id << ',' << static_cast<unsigned>(bitCount) << ',' << static_cast<signed>(divisor);
+  str << m_id << ',' << static_cast<unsigned>(bitCount) << ',' << static_cast<signed>(divisor)
+  << ',' << static_cast<unsigned>(m_minValue) << ',' << static_cast<unsigned>(m_maxValue) << ',' << static_cast<unsigned>(m_incValue);
   string key = str.str();
   *derived = static_cast<const NumberDataType*>(DataTypeList::getInstance()->get(key));
   if (*derived == nullptr) {
